@@ -38,7 +38,8 @@ func (c12) Meta() fw.Meta {
 			"oracle: same success/failure; on success equal header and per archive absent-or-bit-equal series / raw point lists / identical name lists in order; on failure the same os.IsNotExist classification; CLI stdout byte-identical and same exit code; the two copied destinations byte-identical; server output scanned for 'panic serving'. " +
 			"non-trivial = case with at least one successful pair carrying data, one not-exist pair and one error pair; distinct by tree + clock." +
 			" Every 4th case runs against the delayed single-threaded server with concurrent clients; every case adds a pair of reads issued while a writer holds the file with pending changes (both must equal the state after it closed) and repeats file/item listings after files and item directories were added and removed below sub-directories." +
-			" Cases run under UTC, +9 h or -8 h local time; every 3rd case starts its own servers (base = a symbolic link that is re-pointed while the server runs; server started inside the tree with -base . and with the default) and every 3rd case lists through a proxy that breaks off half way through /files and /items answers.",
+			" Cases run under UTC, +9 h or -8 h local time; every 3rd case starts its own servers (base = a symbolic link that is re-pointed while the server runs; server started inside the tree with -base . and with the default) and every 3rd case lists through a proxy that breaks off half way through /files and /items answers." +
+			" Every 5th case writes the base URL with a trailing slash; odd cases sum order-sensitive values with the first file held only during the remote call; every 6th case reads a 0444 file as uid 65534 through the directory and through a server run by that uid.",
 		Assumptions: []string{
 			"an absent series is the same observable as the all-zero empty series (nil vs zero-length), see DESIGN.md section 4 (fix 0902534)",
 			"error texts are not compared, only success/failure and the not-exist classification",
